@@ -355,7 +355,7 @@ func (m *mon) multiSend() {
 		data, _ := core.EndpointABI.Pack("crossChainCall", d, packettypes.Fee{TokenAddress: core.ZeroAddr, Amount: big.NewInt(0)})
 		return core.Step{Kind: core.KindCall, Target: core.EndpointAddr, Data: data, Value: uint64(amount), MustOK: true, ThenStore: 7}
 	}
-	variant := s.Rng.Intn(4)
+	variant := s.Rng.Intn(5)
 	var steps []core.Step
 	what := "multi/"
 	switch variant {
@@ -376,6 +376,11 @@ func (m *mon) multiSend() {
 		st.MustOK = false // inner revert swallowed: only the first send happened
 		steps = []core.Step{mk(dst.Name, 11), st, mk(dst.Name, 13)}
 		what += "middle-reverts-swallowed"
+	case 4:
+		// the same call twice: both PacketSent logs carry the same sequence AND byte-identical packets
+		st := mk(dst.Name, 11)
+		steps = []core.Step{st, st}
+		what += "two-identical"
 	}
 	addr, err := src.DeployRuntime(s.W.Admin.Eth, core.Multicall(steps))
 	if err != nil {
